@@ -1,6 +1,7 @@
 import Bmc.Proofs.C04
 import Bmc.Proofs.GenLoops.BuildAndSend
 import Bmc.Proofs.GenDec.V2Session
+import Bmc.Proofs.GenDec.AES128CBC
 import Bmc.Proofs.GenDec.Message
 import Bmc.Proofs.EndToEnd.SessionC04
 #print axioms Bmc.Proofs.C04.accept_sound
@@ -15,5 +16,6 @@ import Bmc.Proofs.EndToEnd.SessionC04
 #print axioms Bmc.Proofs.GenLoops.V2Session_SendCommand_gen_eq
 #print axioms Bmc.Proofs.GenLoops.V2Session_SendCommand_events_eq
 #print axioms Bmc.Proofs.GenDec.V2Session_gen_eq
+#print axioms Bmc.Proofs.GenDec.AES128CBC_gen_eq
 #print axioms Bmc.Proofs.GenDec.Message_gen_eq
 #print axioms Bmc.Proofs.EndToEnd.generated_loop_accepts_only_authentic
